@@ -194,10 +194,11 @@ type runtimeEnv struct {
 	valueNodes                   map[int]*leafImpl // leaves implemented by value-type nodes
 	seenCtx                      []context.Context
 	// panic family: the callback named here ("p", "e<k>", "f", "o") panics with panicVal right after it was recorded
-	panicAt     string
-	panicVal    any
-	late        map[int][]lateConn // connections made during the run by the post callback of their source node
-	nilNodeImpl *leafImpl          // the leaf implemented by the nil-pointer node, if any
+	panicAt        string
+	panicVal       any
+	late           map[int][]lateConn // connections made during the run by the post callback of their source node
+	emptyNodeImpls [2]*leafImpl
+	nilNodeImpl    *leafImpl // the leaf implemented by the nil-pointer node, if any
 }
 
 func (e *runtimeEnv) maybePanic(at string) {
@@ -659,6 +660,28 @@ func (n *nilNode) Post(ctx context.Context, s *flyt.SharedStore, p, x any) (flyt
 	return nilImpl.post(s, p, x)
 }
 
+// emptyA / emptyB: two DIFFERENT field-less node types used through (non-nil) pointers. Pointers to zero-size values may
+// all share one address, so these two nodes are told apart by their dynamic type only. State is looked up like nilNode's.
+type emptyA struct{}
+type emptyB struct{}
+
+var emptyImpls [2]*leafImpl
+
+func (n *emptyA) Prep(ctx context.Context, s *flyt.SharedStore) (any, error) {
+	return emptyImpls[0].prep(s)
+}
+func (n *emptyA) Exec(ctx context.Context, p any) (any, error) { return emptyImpls[0].exec(p) }
+func (n *emptyA) Post(ctx context.Context, s *flyt.SharedStore, p, x any) (flyt.Action, error) {
+	return emptyImpls[0].post(s, p, x)
+}
+func (n *emptyB) Prep(ctx context.Context, s *flyt.SharedStore) (any, error) {
+	return emptyImpls[1].prep(s)
+}
+func (n *emptyB) Exec(ctx context.Context, p any) (any, error) { return emptyImpls[1].exec(p) }
+func (n *emptyB) Post(ctx context.Context, s *flyt.SharedStore, p, x any) (flyt.Action, error) {
+	return emptyImpls[1].post(s, p, x)
+}
+
 func (e *runtimeEnv) buildLeaf(id int, cfg *LeafCfg) flyt.Node {
 	rt := &nodeRT{env: e, id: id, visit: -1}
 	e.rts[id] = rt
@@ -673,6 +696,13 @@ func (e *runtimeEnv) buildLeaf(id int, cfg *LeafCfg) flyt.Node {
 	case cfg.Fb == "absent" && !cfg.Retryable && cfg.Impl == "value" && cfg.PrepS == "direct" && cfg.ExecS == "direct" && cfg.PostS == "direct":
 		e.valueNodes[id] = l
 		return valueNode{ID: id}
+	case cfg.Fb == "absent" && !cfg.Retryable && (cfg.Impl == "emptyA" || cfg.Impl == "emptyB") && cfg.PrepS == "direct" && cfg.ExecS == "direct" && cfg.PostS == "direct":
+		if cfg.Impl == "emptyA" {
+			e.emptyNodeImpls[0] = l
+			return &emptyA{}
+		}
+		e.emptyNodeImpls[1] = l
+		return &emptyB{}
 	case cfg.Fb == "absent" && !cfg.Retryable && cfg.Impl == "nilptr" && cfg.PrepS == "direct" && cfg.ExecS == "direct" && cfg.PostS == "direct":
 		e.nilNodeImpl = l
 		return (*nilNode)(nil)
@@ -1270,7 +1300,7 @@ func lateify(sc *FlowScenario, h uint64) {
 	}
 	leafPost := map[int]bool{}
 	for _, n := range sc.Nodes {
-		if n.Leaf != nil && n.Leaf.PostS != "absent" && n.Leaf.Impl != "value" && n.Leaf.Impl != "nilptr" {
+		if n.Leaf != nil && n.Leaf.PostS != "absent" && n.Leaf.Impl != "value" && n.Leaf.Impl != "nilptr" && n.Leaf.Impl != "emptyA" && n.Leaf.Impl != "emptyB" {
 			leafPost[n.ID] = true
 		}
 	}
@@ -1442,7 +1472,7 @@ func normaliseZero(sc *FlowScenario) {
 func execFlowScenario(sc *FlowScenario) FlowObs {
 	normaliseZero(sc)
 	for _, n := range sc.Nodes {
-		if n.Leaf != nil && (n.Leaf.Impl == "value" || n.Leaf.Impl == "nilptr") {
+		if n.Leaf != nil && (n.Leaf.Impl == "value" || n.Leaf.Impl == "nilptr" || n.Leaf.Impl == "emptyA" || n.Leaf.Impl == "emptyB") {
 			valueScenarioMu.Lock()
 			defer valueScenarioMu.Unlock()
 			break
@@ -1454,6 +1484,9 @@ func execFlowScenario(sc *FlowScenario) FlowObs {
 	}
 	if e.nilNodeImpl != nil {
 		nilImpl = e.nilNodeImpl
+	}
+	if e.emptyNodeImpls[0] != nil || e.emptyNodeImpls[1] != nil {
+		emptyImpls = e.emptyNodeImpls
 	}
 	obs := FlowObs{Runs: []RunObs{}}
 	if sc.RBudget != nil {
